@@ -124,9 +124,18 @@ def execute(trace, ctx):
         return exec_random_graph(trace, ctx)
     if m == "chi2":
         return exec_chi2(trace, ctx)
-    if m == "rotations":
-        return exec_rotations(trace, ctx)
-    return exec_frames(trace, ctx)
+    if m in ("rotations", "frames") or m not in ("enum_trees", "random_graph", "chi2"):
+        fn = exec_rotations if m == "rotations" else exec_frames
+        if trace["seed"] % 3 == 2:
+            # the caller's numerical environment: floating-point errors raised, warnings turned into errors (a test suite
+            # run with -W error, a simulation code that traps NaNs).  A pure function that is correct by the statement
+            # neither divides by zero nor produces NaN on the way to its (finite) answer
+            import warnings
+            ctx.probe("numpy_errors_raised_and_warnings_as_errors")
+            with np.errstate(all="raise"), warnings.catch_warnings():
+                warnings.simplefilter("error")
+                return fn(trace, ctx)
+        return fn(trace, ctx)
 
 
 # ---- C07 ---------------------------------------------------------------------------------------------
